@@ -221,13 +221,19 @@ def run_case(case, prop) -> Dict[str, Any]:
                 viols.append({"kind": f"rt_{p_}_{v['kind']}", "features": {}, "detail": v["detail"]})
         st["rt_runs_checked_by_core_oracles"] = 1
     # (e) strict vs. non-strict: identical histories up to the first too-slow report
-    if sc["config"].get("rt_factor") is not None and not viols:
+    if sc["config"].get("rt_factor") is not None and not viols and not info["past_event"]:
+        # (runs in which an event was already in the past when mosaik processed it are outside the
+        # envelope - they may die with "cannot progress backwards" in either mode)
         sc2 = copy.deepcopy(sc)
         sc2["config"]["rt_strict"] = not sc["config"].get("rt_strict", False)
         r2 = runner.execute(sc2, sp, max_callbacks=300_000)
         out["runs"] += 1
+        skip_e = analyse(sc2, sp, r2)[1]["past_event"]
         a, b = (r, r2) if not sc["config"].get("rt_strict") else (r2, r)     # a = non-strict
         slow = next((i for i, h in enumerate(a.hist) if h[0] == "log" and "too slow" in h[2]), None)
+        if skip_e:
+            a = b = r
+            slow = None
         cut = slow if slow is not None else min(len(a.hist), len(b.hist))
         pa = [h for h in a.hist[:cut] if h[0] in ("begin", "end")]
         pb = [h for h in b.hist[:cut] if h[0] in ("begin", "end")]
